@@ -75,6 +75,13 @@ type gen struct {
 	events    []string
 	usedExterns []string
 	npOrd map[string]int
+	callResults map[string][]T
+	escaped map[*ssa.Alloc]bool
+	nfa int
+	srcOrd map[ssa.Instruction]int
+	faTag map[string]int
+	addrRoot map[string]*ssa.Alloc
+	addrList []string
 }
 
 type retSite struct {
@@ -661,6 +668,10 @@ func (g *gen) freshOfType(t types.Type, prefix string) T {
 	if s == sStr {
 		g.assume(and(g.idxLe(g.idxLit(0), sx("gstr.len", n)), g.idxLe(sx("gstr.len", n), g.idxMaxLen())))
 	}
+	if s == sPtr && g.cur != nil {
+		// allocator invariant: every pointer in existence is below the allocation counter
+		g.assume(and(sx("<=", "0", n), sx("<", n, g.nalloc())))
+	}
 	return r
 }
 
@@ -695,8 +706,24 @@ func (g *gen) loadAt(p string, t types.Type) string {
 
 func (g *gen) subAddr(p, structName string, i int) string {
 	fn := fmt.Sprintf("fa.%s.%d", structName, i)
-	g.declare(fn, fmt.Sprintf("(declare-fun %s (Int) Int)", fn))
-	return sx(fn, p)
+	g.declare("atag", "(declare-fun atag (Int) Int)")
+	if !g.declared[fn] {
+		g.nfa++
+		g.faTag[fn] = g.nfa
+		g.declare(fn, fmt.Sprintf("(declare-fun %s (Int) Int)\n(declare-fun %s.inv (Int) Int)", fn, fn))
+	}
+	r := sx(fn, p)
+	// sub-object addresses are injective; ranges of different sub-object functions are disjoint from
+	// each other and from allocation addresses (tag 0).  Ground instances suffice: every such term
+	// is built here.
+	if !g.declared["fa!"+r] {
+		g.declared["fa!"+r] = true
+		g.assume(and(sx("=", sx("atag", r), fmt.Sprint(g.faTag[fn])), sx("=", sx(fn+".inv", r), p)))
+	}
+	if root, ok := g.addrRoot[p]; ok {
+		g.noteAddr(r, root)
+	}
+	return r
 }
 
 func (g *gen) loadField(p, structName string, i int, f fieldInfo) string {
@@ -865,8 +892,9 @@ func (g *gen) havocHeap(why string) {
 		}
 		old := g.comp(name, "")
 		nw := g.declConst(strings.ReplaceAll(name, "@", "_")+".hv", g.compSort[name])
-		for a, addr := range g.allocAddr {
-			if g.stable[a] {
+		for _, addr := range g.addrList {
+			a := g.addrRoot[addr]
+			if g.stable[a] || !g.escaped[a] {
 				g.assume(sx("=", sx("select", nw, addr), sx("select", old, addr)))
 			}
 		}
@@ -889,4 +917,14 @@ func (g *gen) constArray(arrSort, es string, et types.Type) string {
 	g.ensureSort(es)
 	g.declare(n, fmt.Sprintf("(declare-const %s %s)", n, arrSort))
 	return n
+}
+
+func (g *gen) noteAddr(addr string, root *ssa.Alloc) {
+	if g.addrRoot == nil {
+		g.addrRoot = map[string]*ssa.Alloc{}
+	}
+	if _, ok := g.addrRoot[addr]; !ok {
+		g.addrRoot[addr] = root
+		g.addrList = append(g.addrList, addr)
+	}
 }
